@@ -125,7 +125,13 @@ def router_case(job):
             name = f"m{mi}"
             ns = {"pt": pt, "abi": abi}
             exec(compile(f"def {name}():\n    return pt.Log(pt.Bytes('method:{name}'))\n", "<m>", "exec", dont_inherit=True), ns)
-            router.add_method_handler(pt.ABIReturnSubroutine(ns[name]), method_config=pt.MethodConfig(**{k: pt.CallConfig(v) for k, v in cfg.items()}))
+            route = r.choice(["handler", "decorator"])
+            if route == "handler":
+                router.add_method_handler(pt.ABIReturnSubroutine(ns[name]), method_config=pt.MethodConfig(**{k: pt.CallConfig(v) for k, v in cfg.items()}))
+            else:
+                # the decorator route: only the OnCompletion keywords that are allowed are given; the others take the decorator's defaults (never)
+                given = {k: pt.CallConfig(v) for k, v in cfg.items() if v}
+                router.method(ns[name], **given)
             sel = hashlib.new("sha512_256", f"{name}()void".encode()).digest()[:4]
             methods.append((name, sel, cfg))
         approval, clear_teal, contract = router.compile_program(version=version)
